@@ -25,6 +25,11 @@ separate enqueues) and the table refresh:
  7. demotion (WithDemotion): the replaced master stays alive as a replica. The code sends READONLY on every backend connection
     (ReadonlyEverywhere), so the demoted node serves reads itself: TLC finds a read overtaking the redirected write issued
     before it (6 states); cluster-redirorder's stratum demoted-read shows it on the code (pipeline SET k v; GET k -> old value).
+ 8. redirect chains (StaleTableAtStart, MaxMigs = 2, MaxFollowed): one request may need two or three redirections (stale table +
+    half-migrated slot: MOVED then ASK; two changes of ownership between refreshes: MOVED then MOVED; finalise and a further
+    move between the ASK and the resend: ASK then MOVED). TLC: clean without a bound on the redirections followed, NoRedirectError
+    violated with MaxFollowed = 1 and = 2. Code: behaviours with a stale table and the refresher held back (Gen_Cluster_stale.cfg),
+    and cluster-redirchain sets up moved-ask, moved-moved, ask-moved, moved-ask-moved every run (read and write each).
 
 Modules owned (with C03): see checks/c03.py.
 """
@@ -45,20 +50,20 @@ def run(ctx):
     ]
     # the repaired code sends ASKING and the command back to back (AtomicAsk): clean with a loaded and with an empty table
     r = ctx.mc("redis", "MC_Cluster", "MC_Cluster_migration_thorough.cfg" if ctx.thorough else "MC_Cluster_migration.cfg",
-               workers=8, timeout=1500, coverage=False)
+               workers=(8 if ctx.thorough else 4), timeout=1500, coverage=False)
     ctx.mc("redis", "MC_Cluster", "MC_Cluster_migration_emptytable_atomic.cfg" if ctx.thorough else "MC_Cluster_migration_emptytable_atomic_quick.cfg",
-           workers=8, timeout=1500)
+           workers=(8 if ctx.thorough else 4), timeout=1500)
     # the pinned design (two separate sends) must still yield its counterexample with an empty table (anti-vacuity)
-    ctx.mc("redis", "MC_Cluster", "MC_Cluster_migration_emptytable.cfg" if ctx.thorough else "MC_Cluster_migration_emptytable_small.cfg", workers=8, timeout=900,
+    ctx.mc("redis", "MC_Cluster", "MC_Cluster_migration_emptytable.cfg" if ctx.thorough else "MC_Cluster_migration_emptytable_small.cfg", workers=(8 if ctx.thorough else 4), timeout=900,
            expect_violated=["SingleCopy", "CopyIsReference", "EqualsReference"], count=False)
     # failover: a master is replaced by a standby node and dies; a request that fails against the dead master must make
     # the table converge (repaired code: a dial error triggers a refresh); the pinned variant must fail
-    ctx.mc("redis", "MC_Cluster", "MC_Cluster_failover_fixed.cfg", workers=8, timeout=900)
+    ctx.mc("redis", "MC_Cluster", "MC_Cluster_failover_fixed.cfg", workers=(8 if ctx.thorough else 4), timeout=900)
     ctx.mc("redis", "MC_Cluster", "MC_Cluster_failover_pinned.cfg", workers=4, timeout=600,
            expect_violated=["TEMPORAL", "ConvergesAfterDialError"], count=False)
     # order of redirected requests towards a node the proxy is not connected to yet: clean as the code does it (the source's
     # reader resends), counterexample when the resend is left to a goroutine of its own
-    ctx.mc("redis", "MC_Cluster", "MC_Cluster_freshtarget_thorough.cfg" if ctx.thorough else "MC_Cluster_freshtarget.cfg", workers=8, timeout=900)
+    ctx.mc("redis", "MC_Cluster", "MC_Cluster_freshtarget_thorough.cfg" if ctx.thorough else "MC_Cluster_freshtarget.cfg", workers=(8 if ctx.thorough else 4), timeout=900)
     ctx.mc("redis", "MC_Cluster", "MC_Cluster_freshtarget_async.cfg", workers=4, timeout=600,
            expect_violated=["RedirectKeepsOrder"], count=False)
     # a master that stays alive as a replica of its successor: with READONLY on every backend connection (the code) the demoted
@@ -72,9 +77,22 @@ def run(ctx):
     if ctx.thorough:   # the window in the design as built: MOVED / ASK naming an unconnected node, a second command for the key queued behind
         ctx.mc("redis", "MC_Cluster", "MC_Cluster_freshtarget_window.cfg", workers=4, timeout=600,
                expect_violated=["NoRedirectToFreshNode"], count=False)
+    # redirect chains: with a stale table and two migrations one request is redirected two and three times and is still
+    # executed once (clean without a bound, as the code); a proxy that follows only one redirection (or two) hands the
+    # MOVED / ASK error of the next one to the client - those variants must violate NoRedirectError, which also shows that
+    # chains of length 2 and 3 are reachable in this configuration
+    ctx.mc("redis", "MC_Cluster", "MC_Cluster_chain_thorough.cfg" if ctx.thorough else "MC_Cluster_chain.cfg", workers=4, timeout=900)
+    ctx.mc("redis", "MC_Cluster", "MC_Cluster_chain_follow1.cfg", workers=2, timeout=600, expect_violated=["NoRedirectError"], count=False)
+    ctx.mc("redis", "MC_Cluster", "MC_Cluster_chain_follow2.cfg", workers=2, timeout=600, expect_violated=["NoRedirectError"], count=False)
+    if ctx.thorough:   # the windows in the design as built: a request executed after two / three redirections
+        ctx.mc("redis", "MC_Cluster", "MC_Cluster_chain_window2.cfg", workers=2, timeout=600, expect_violated=["NoChain2"], count=False)
+        ctx.mc("redis", "MC_Cluster", "MC_Cluster_chain_window3.cfg", workers=2, timeout=600, expect_violated=["NoChain3"], count=False)
     clusterlib.gen_and_replay(ctx, "Gen_Cluster_migration.cfg", 250 if ctx.thorough else 30, False, "migration")
     clusterlib.gen_and_replay(ctx, "Gen_Cluster_pipeline.cfg", 200 if ctx.thorough else 30, False, "pipeline", extra=["-pipeline"])
+    # a table that is stale from the start, the refresher held back, up to two migrations: MOVED then ASK for one command
+    clusterlib.gen_and_replay(ctx, "Gen_Cluster_stale.cfg", 150 if ctx.thorough else 30, False, "stale", extra=["-norefresh"])
     clusterlib.redirect_order(ctx)
+    clusterlib.redirect_chain(ctx)
     ffile = os.path.join(ctx.work, "failover.ndjson")
     ctx.harness(["cluster-failover", "-out", ffile, "-runs", "24" if ctx.thorough else "4"], timeout=900, name="cluster")
     for r in kit.read_ndjson(ffile):
